@@ -40,17 +40,17 @@ import (
 
 // Outcome of one upstream attempt, as scripted for the upstream peer.
 const (
-	upReply200    = "reply-ok"        // bolt success response
-	upReply5xx    = "reply-err"       // bolt response with status ServerException (maps to 500)
-	upReplyBusy   = "reply-busy"      // bolt ServerThreadpoolBusy (maps to 503)
-	upClose       = "remote-close"    // upstream closes the connection after receiving the request
-	upSilent      = "silent"          // never answers
-	upConnectFail = "connect-fail"    // the connection to this attempt's host fails to connect
-	upConnectTO   = "connect-timeout" // ... times out
-	upReplySplit  = "reply-ok-split"  // success response delivered in two reads (header part / rest)
-	upReplyDup    = "reply-ok-dup"    // the success response is delivered twice
+	upReply200    = "reply-ok"              // bolt success response
+	upReply5xx    = "reply-err"             // bolt response with status ServerException (maps to 500)
+	upReplyBusy   = "reply-busy"            // bolt ServerThreadpoolBusy (maps to 503)
+	upClose       = "remote-close"          // upstream closes the connection after receiving the request
+	upSilent      = "silent"                // never answers
+	upConnectFail = "connect-fail"          // the connection to this attempt's host fails to connect
+	upConnectTO   = "connect-timeout"       // ... times out
+	upReplySplit  = "reply-ok-split"        // success response delivered in two reads (header part / rest)
+	upReplyDup    = "reply-ok-dup"          // the success response is delivered twice
 	upReplyUnk    = "reply-unknown-then-ok" // a response with an id nobody is waiting for, then the real one
-	upLateOK      = "late-ok"         // answers only after the downstream already got its (timeout) reply: a late reply
+	upLateOK      = "late-ok"               // answers only after the downstream already got its (timeout) reply: a late reply
 )
 
 type hpRequest struct {
@@ -68,7 +68,7 @@ type hpRequest struct {
 type hpScenario struct {
 	Name           string      `json:"name"`
 	Requests       []hpRequest `json:"requests"`
-	OneChunk       bool        `json:"one_chunk,omitempty"` // all requests delivered in one read
+	OneChunk       bool        `json:"one_chunk,omitempty"`  // all requests delivered in one read
 	Sequential     bool        `json:"sequential,omitempty"` // request i+1 is sent only after the response to request i arrived
 	Reverse        bool        `json:"reverse,omitempty"`    // the upstream answers only once all requests arrived, last request first
 	RouteTimeoutMs int         `json:"route_timeout_ms,omitempty"`
@@ -89,14 +89,14 @@ type hpScenario struct {
 	AllUnhealthy   bool       `json:"all_unhealthy,omitempty"`
 	Filters        []hpFilter `json:"filters,omitempty"`
 	// extra JSON merged into the route's "route" action (request_headers_to_add, …) and a direct response
-	RouteExtra     map[string]interface{} `json:"route_extra,omitempty"`
-	DirectStatus   int                    `json:"direct_status,omitempty"`
+	RouteExtra   map[string]interface{} `json:"route_extra,omitempty"`
+	DirectStatus int                    `json:"direct_status,omitempty"`
 	// the host that served the first attempt is marked unhealthy (active health check failed) just before
 	// the peer acts on that attempt: a retry that re-runs host selection must avoid it
-	EjectFirstHost bool                   `json:"eject_first_host,omitempty"`
-	DirectBody     string                 `json:"direct_body,omitempty"`
-	Bound          int        `json:"bound"`
-	Choices        []int      `json:"choices,omitempty"`
+	EjectFirstHost bool   `json:"eject_first_host,omitempty"`
+	DirectBody     string `json:"direct_body,omitempty"`
+	Bound          int    `json:"bound"`
+	Choices        []int  `json:"choices,omitempty"`
 }
 
 type hpFilter struct {
@@ -401,9 +401,10 @@ type hpRun struct {
 	cm    types.ClusterManager
 	done  bool
 	// per token: attempts seen upstream (assigned when the request frame is observed)
-	attempt map[string]int
-	reqByTk map[string]*hpRequest
-	gauge0  map[string]int64
+	attempt   map[string]int
+	reqByTk   map[string]*hpRequest
+	gauge0    map[string]int64
+	healthPtr [8]*uint64
 }
 
 func (h *hpRun) logf(f string, a ...interface{}) { h.obs.Log = append(h.obs.Log, fmt.Sprintf(f, a...)) }
@@ -449,7 +450,8 @@ func hpBody(sc *hpScenario, obs *hpObs) {
 		// health flag words are process-global per address (cluster.healthStore): start every
 		// execution with all conditions cleared, as a fresh process would
 		for i := 0; i < 8; i++ {
-			*cluster.GetHealthFlagPointer(hpHostAddr(i)) = 0
+			h.healthPtr[i] = cluster.GetHealthFlagPointer(hpHostAddr(i))
+			*h.healthPtr[i] = 0
 		}
 	}
 	rcfg := hpRouterConfig(sc)
@@ -678,7 +680,7 @@ func (h *hpRun) onUpstreamConn(c *vfake.Conn) {
 					act = h.scriptFor(fr.Token, k)
 					if fr.Oneway || act == upSilent {
 						if h.sc.EjectFirstHost && k == 0 {
-							*cluster.GetHealthFlagPointer(hpHostAddr(u.Host)) |= uint64(api.FAILED_ACTIVE_HC)
+							*h.healthPtr[u.Host] |= uint64(api.FAILED_ACTIVE_HC) // (no instrumented call inside a predicate)
 						}
 						u.done[i] = true // nothing to do for this request, ever
 						continue
@@ -694,8 +696,7 @@ func (h *hpRun) onUpstreamConn(c *vfake.Conn) {
 			u.done[pick] = true
 			h.logf("peer%d(host%d): request id=%d token=%s -> %s", idx, u.Host, fr.ID, fr.Token, act)
 			if h.sc.EjectFirstHost && h.attemptOf(u, pick) == 0 {
-				p := cluster.GetHealthFlagPointer(hpHostAddr(u.Host))
-				*p |= uint64(api.FAILED_ACTIVE_HC)
+				*h.healthPtr[u.Host] |= uint64(api.FAILED_ACTIVE_HC)
 			}
 			switch act {
 			case upReply200, upLateOK:
@@ -853,4 +854,3 @@ func hpScenarioName(sc *hpScenario) string {
 	}
 	return s
 }
-
